@@ -85,7 +85,11 @@ func cmdRun(args []string) int {
 			}
 		}
 	}
-	ov, err := harnessOverlay(verifDir(), map[string]string{relOf(pkg): hdir})
+	hd := map[string]string{relOf(pkg): hdir}
+	for k, v := range ec.Overlays {
+		hd[k] = v
+	}
+	ov, err := harnessOverlay(verifDir(), hd)
 	if err != nil {
 		fmt.Println(err)
 		return 2
